@@ -157,6 +157,18 @@ CLAIMED = {
                 "preferences (clock-based 'current'), a missing year is the clock's year, and the format's reading wins.",
         "design_ref": "DESIGN.md §3 C14",
     },
+    "C15": {
+        "text": "CLAIM MODULO THE THIRD-PARTY CONVERTERS (convertdate.persian floats, hijridate tables: not encoded). "
+                "dateparser's own calendar parsing (to_latin rewriting of months, weekdays, Persian digits, spelled-out "
+                "days, time words; token validation; two-digit years; the Hijri converter wrapper; clock time) is "
+                "executed symbolically through JalaliCalendar/HijriCalendar.get_date on numeric templates (ASCII and "
+                "Persian digits), 'D <Persian month name> YYYY', weekday words, every spelled day word, time suffixes, with "
+                "year/month/day/time symbolic and to_gregorian/from_gregorian as uninterpreted functions (month_length: "
+                "structural contract, real values for concrete arguments); z3 shows per path that exactly the written "
+                "(Y, M, D) is handed to to_gregorian once and its result is returned with the written time. Every "
+                "violating witness is realised as a valid date and replayed against the real converters as reference.",
+        "design_ref": "DESIGN.md §3 C15",
+    },
     "C17": {
         "text": "Token loop: the real Locale.translate_search runs over every sequence of <= 3 (thorough 4) tokens drawn by "
                 "symbolic choice from a per-locale pool (12 locales incl. all without word spacing): no exception, "
